@@ -3,7 +3,8 @@
 Decided: every literal quadrature table is a correct rule (exact rational moment conditions to 1e-12); branch sets;
 the fan triangulation covers the polygon and the quadrature loops pair nodes and weights correctly; on the Cartesian path all
 of x, y, z reach the Jacobian (constant propagation of `dim`); degrees are converted before the spherical->Cartesian map;
-corners are gathered per face through the n_nodes_per_face prefix; face_areas cache = default-argument computation."""
+corners are gathered per face through the n_nodes_per_face prefix; face_areas cache = default-argument computation.
+who may store face_areas (the getter/setter and the MPAS reader, whose file areas are divided by sphere_radius**2)."""
 
 import ast
 from fractions import Fraction
